@@ -30,11 +30,16 @@ BOUNDS = {
 }
 OUTSIDE = ('from_full, canonical_form_finite/infinite, from_Bflat with chi>1, from_singlets, from_product_mps_covering, '
            'from_random_unitary_evolution, from_desired_bond_dimension (chains of factorisations / LAPACK / ARPACK); norm_test; '
-           'entropies of non-diagonal (mixer) S; whether the stored S are the true Schmidt values (needs canonical form)')
+           'entropies of non-diagonal (mixer) S; whether the stored S are the true Schmidt values (needs canonical form); '
+           'entanglement_entropy_segment: that LAPACK eigvalsh returns the eigenvalues of the matrix it is given (contract stub), segments on '
+           'charge-conserving chains (several eigvalsh blocks), entanglement_entropy_segment2, mutinf_two_site')
 STUBS = ['BLAS contract stub', 'numpy facade for tenpy.networks.mps, tenpy.tools.math (dtype widening, log -> monotone UF)',
-         'Array.conj hook', 'QTYPE=object (symbolic target charge in gauge_total_charge cases)']
+         'Array.conj hook', 'QTYPE=object (symbolic target charge in gauge_total_charge cases)',
+         'np.linalg.eigvalsh contract stub (entropy.segment cases only: fresh real eigenvalues, ascending, same matrix -> same eigenvalues)']
 ASSUMPTIONS = ['floats are reals', 'singular values S = t*t with t > 0 (exact square roots)', 'entropy cases: S^2 > 1e-30 (the stability '
-               'cut-off of tools.math.entropy is outside)', 'np.log is an uninterpreted strictly monotone function with log(1)=0']
+               'cut-off of tools.math.entropy is outside)', 'np.log is an uninterpreted strictly monotone function with log(1)=0',
+               'entropy.segment: the largest eigenvalue of the reduced density matrix is > 1e-30 (state not the zero vector); the 1e-30 cut of '
+               'tools.math.entropy is mirrored by forks on every eigenvalue']
 
 
 def setup_symbolic(case):
@@ -345,6 +350,57 @@ def entropy_case(ctx, **p):
             for s in sm.S[L]:
                 tot = tot - _log(ctx, s * s) * (s * s)
             ctx.prove_eq(ent, np.array([tot]), 'entanglement_entropy(bonds=L) uses the right-most S')
+    elif mode == 'segment':
+        # entanglement_entropy_segment = entropy(eigvalsh(reduced density matrix), n): ONE LAPACK call per first site.  The matrix
+        # handed to eigvalsh is compared with the harness's own partial trace of get_theta (get_theta is decided by the theta cases);
+        # the returned number with the documented formula on the eigenvalues the (stubbed / real) eigvalsh returned.
+        import tenpy.networks.mps as M
+        n = p['n']
+        seg = list(p['segment'])
+        width = seg[-1] + 1
+        firsts = list(range(0, L - seg[-1])) if sm.bc != 'infinite' else list(range(L))
+        i0 = firsts[ctx.choice('first_site', len(firsts))]
+        calls = []
+        orig = M.npc.eigvalsh
+
+        def rec(a, *args, **kw):
+            w = orig(a, *args, **kw)
+            ctx.assume(w[-1] > 1.e-30)  # the state is not the zero vector (eigvalsh: ascending)
+            kept = [x for x in w if bool(x > 1.e-30)]  # the documented stability cut of tools.math.entropy (forks per eigenvalue)
+            calls.append((a.to_ndarray(), kept))
+            return w
+
+        M.npc.eigvalsh = rec
+        restore = None
+        if ctx.symbolic:  # eigvalsh contract stub (fresh ascending real eigenvalues), installed after the sites / tensors are built
+            from symx import lapack, stubs
+            restore = stubs.facade_for(M.npc, widen=True, linalg_overrides={'eigvalsh': lapack.make_eigvalsh(np.linalg.eigvalsh)})
+        try:
+            ent = psi.entanglement_entropy_segment(segment=seg, first_site=[i0], n=n)
+        finally:
+            M.npc.eigvalsh = orig
+            if restore is not None:
+                restore()
+        ctx.prove(len(calls) == 1 and len(ent) == 1, 'entanglement_entropy_segment: one reduced density matrix per first site')
+        rho, w = calls[0]
+        th = psi.get_theta(i0, n=width).to_ndarray()  # vL, p0..p_{width-1}, vR
+        keep = [1 + j for j in seg]
+        drop = [0] + [1 + j for j in range(width) if j not in seg] + [width + 1]
+        own = np.tensordot(th, th.conj(), axes=(drop, drop))
+        d = int(np.prod([th.shape[k] for k in keep]))
+        ctx.prove_eq(rho, own.reshape(d, d), 'matrix diagonalised by entanglement_entropy_segment == own partial trace of theta theta^dagger')
+        if n == 1:
+            tot = 0
+            for x in w:
+                tot = tot - _log(ctx, x) * x
+        elif n == np.inf:
+            tot = -_log(ctx, w[-1])  # eigvalsh: ascending
+        else:
+            tot = 0
+            for x in w:
+                tot = tot + x**n
+            tot = _log(ctx, tot) / (1. - n)
+        ctx.prove_eq(ent, np.array([tot]), 'entanglement_entropy_segment == entropy(eigenvalues of the reduced density matrix, n)')
     elif mode == 'spectrum':
         spec = psi.entanglement_spectrum()
         ctx.prove(len(spec) == len(bonds), 'entanglement_spectrum: one spectrum per non-trivial bond')
@@ -515,6 +571,14 @@ def CASES(tier, seed):
         add(f'entropy.renyi2[{gn}]', 'entropy_case', mode='renyi', n=2, **g)
         add(f'entropy.renyi0.5[{gn}]', 'entropy_case', mode='renyi', n=0.5, **g)
         add(f'entropy.spectrum[{gn}]', 'entropy_case', mode='spectrum', **g)
+        if g['kind'] in ('spin', 'ferm'):  # charge-free: one eigvalsh block
+            for seg, n in (([0], 2), ([0, 1], 1)) + ((([0, 2], 0.5), ([0], np.inf)) if thorough or g['bc'] == 'infinite' else ()):
+                if g['bc'] != 'infinite' and seg[-1] >= L:
+                    continue
+                add(f"entropy.segment[{'+'.join(map(str, seg))},n={n}][{gn}]", 'entropy_case', mode='segment', segment=seg, n=n, **g)
+                # counterexample search: the stub's eigenvalues are not tied to the tensors in the solver, so generic
+                # tensor entries are proposed and only the auxiliary symbols are left to the solver
+                cases[-1]['opts']['guided_with_side'] = True
         if g['bc'] == 'segment':
             add(f'entropy.bond_L[{gn}]', 'entropy_case', mode='bond_L', **g)
         if g['kind'] in ('spinSz', 'fermN', 'shfNSz'):
